@@ -152,7 +152,30 @@ class Case:
                     idx[rng.randrange(len(idx))] = -1
                     rd.link_data_array(victim, idx)
                 attempt("dimension_link", link)
+            # the role links that are not confined to the victim's block: extents / positions of a multi-tag and a dimension link
+            # in ANOTHER block accept it too, and must go with it
+            for ob in [x for x in f.blocks if x.id != blk.id][:1]:
+                if victim.dtype.kind in "fiu":
+                    omts = list(ob.multi_tags)
+                    if omts:
+                        attempt("extents:other_block", lambda: setattr(omts[0], "extents", victim))
+                    if len(omts) >= 2:
+                        attempt("positions:other_block", lambda: setattr(omts[1], "positions", victim))
+                oarrs = list(ob.data_arrays)
+                if oarrs and len(victim.shape) >= 1 and all(s > 0 for s in victim.shape):
+                    oo = rng.choice(oarrs)
+
+                    def olink():
+                        rd = oo.append_range_dimension()
+                        idx = [0] * len(victim.shape)
+                        idx[rng.randrange(len(idx))] = -1
+                        rd.link_data_array(victim, idx)
+                    attempt("dimension_link:other_block", olink)
         if kind == "DataFrame":
+            for ob in [x for x in f.blocks if x.id != blk.id][:1]:
+                oarrs = list(ob.data_arrays)
+                if oarrs:
+                    attempt("dimension_link:other_block", lambda: rng.choice(oarrs).append_set_dimension().link_data_frame(victim, 0))
             t = B.pick(list(blk.tags) + list(blk.multi_tags))
             if t is not None:
                 attempt("feature.data", lambda: t.create_feature(victim, rng.choice([nix.LinkType.Indexed, nix.LinkType.Untagged])))
@@ -195,14 +218,50 @@ class Case:
         kind, cont, victim, blk = rng.choice([c for c in cands if c[0] == kind])
         roles = self.wire(B, kind, victim, blk) if kind != "Feature" and kind != "Property" and kind != "Block" else set()
         if kind == "Block":
-            # outbound-only; make sure something inside is linked from inside (groups, tags) - nothing to wire from outside
-            pass
+            # what a block contains can be linked from OUTSIDE the block: positions / extents of a multi-tag and dimension links are
+            # not confined to a block - everything the block contains must go, those links included
+            for ob in [x for x in B.f.blocks if x.id != victim.id][:1]:
+                arrs = [d for d in victim.data_arrays if d.dtype.kind in "fiu"]
+                omts = list(ob.multi_tags)
+                try:
+                    if arrs and omts:
+                        omts[0].extents = rng.choice(arrs)
+                        roles.add("child.extents:other_block")
+                    if arrs and len(omts) >= 2:
+                        omts[1].positions = rng.choice(arrs)
+                        roles.add("child.positions:other_block")
+                    lk = [d for d in victim.data_arrays if len(d.shape) >= 1 and all(x > 0 for x in d.shape) and d.dtype.kind in "fiu"]
+                    if lk and len(ob.data_arrays):
+                        tgt = rng.choice(lk)
+                        idx = [0] * len(tgt.shape)
+                        idx[rng.randrange(len(idx))] = -1
+                        rng.choice(list(ob.data_arrays)).append_range_dimension().link_data_array(tgt, idx)
+                        roles.add("child.dimension_link:other_block")
+                    if len(victim.data_frames) and len(ob.data_arrays):
+                        rng.choice(list(ob.data_arrays)).append_set_dimension().link_data_frame(victim.data_frames[0], 0)
+                        roles.add("child.frame_dimension_link:other_block")
+                except Exception:
+                    ctx.count("wire_failed:block_children")
         # re-fetch handles after wiring
         pre = snapshot.snapshot(nix, f)
         ids = B.closure(victim)
         if kind == "Property":
             ids = {victim.id}
         how = rng.choice(["name", "id", "index", "obj"]) if kind not in ("Feature",) else rng.choice(["id", "index", "data_id"])
+        owner = None
+        if kind == "Property" and rng.random() < 0.4:
+            # dictionary-style deletion through the section; half of the time the section also has a SUBSECTION of that name,
+            # which must not be what goes
+            how = "dict_key"
+            owner = cont._parent
+            if rng.random() < 0.6 and victim.name not in [x.name for x in owner.sections]:
+                try:
+                    twin = owner.create_section(victim.name, "same name as a property")
+                    B.born(twin, owner.id, "sections")
+                    roles.add("subsection_of_the_same_name")
+                except Exception:
+                    ctx.count("wire_failed:twin_subsection")
+            pre = snapshot.snapshot(nix, f)
         lst = list(cont)
         pos = [x.id for x in lst].index(victim.id)
         data_id = None
@@ -214,7 +273,7 @@ class Case:
                     how = "id"
             except Exception:
                 how = "id"
-        key = {"name": getattr(victim, "name", None), "id": victim.id, "index": pos, "obj": victim, "data_id": data_id}[how]
+        key = {"name": getattr(victim, "name", None), "id": victim.id, "index": pos, "obj": victim, "data_id": data_id, "dict_key": None}[how]
         same_name_elsewhere = False
         if kind not in ("Feature",):
             nm = victim.name
@@ -223,7 +282,10 @@ class Case:
                     same_name_elsewhere=same_name_elsewhere)
         self.sigs.append((kind, how, tuple(sorted(r.split(":")[0] for r in roles))))
         try:
-            del cont[key]
+            if how == "dict_key":
+                del owner[victim.name]
+            else:
+                del cont[key]
         except Exception as e:
             ctx.violation("delete:%s:by_%s:raises_%s" % (kind, how, type(e).__name__), dict(info, error=repr(e)[:300]), dict(self.rep, upto=di))
             return
